@@ -439,6 +439,25 @@ fn enumerated() -> Vec<FCase> {
             }
         }
     }
+    // payloads beyond a megabyte (whatever a backend does with large values - overflow pages,
+    // side files - has to fail and roll back with the rest), on a client that already holds a
+    // large snapshot
+    let big = |s: u32, len: u32| BytesSpec { len, class: 2, seed: s };
+    let big_prefix = vec![
+        Op::AddVersion { c: 0, parent: IdRef::Nil, data: d(1) },
+        Op::AddVersion { c: 0, parent: IdRef::Latest(0), data: big(2, 1_100_000) },
+        Op::AddSnapshot { c: 0, version: IdRef::Ancestor(0, 1), data: big(3, 1_200_000) },
+        Op::AddVersion { c: 0, parent: IdRef::Latest(0), data: d(4) },
+    ];
+    for via in [Via::Lib, Via::Http] {
+        for t in [Op::AddSnapshot { c: 0, version: IdRef::Latest(0), data: big(12, 1_300_000) }, Op::AddVersion { c: 0, parent: IdRef::Latest(0), data: big(10, 1_150_000) }] {
+            for at in 0..8u32 {
+                for after_effect in [false, true] {
+                    out.push(FCase { via, prefix: Case { cfg: Default::default(), salt: 5, nclients: 1, ops: big_prefix.clone() }, target: t.clone(), fault: Fault { at, after_effect }, second: None, continuation: vec![] });
+                }
+            }
+        }
+    }
     out
 }
 
